@@ -122,26 +122,26 @@ func isSnapshot(v interface{}) bool { _, ok := v.(*snapshot); return ok }
 //@   requires f != nil && fnl != nil && evOK()
 //@   ensures[bracketed] befores()-afters() == old(befores()-afters())
 //@   ensures[seen] befores() >= old(befores()) + 1
-//@   nosafety
+//@   nosafety keep-pre
 
 //@ func (ce *callEngine) callGoFunc(ctx context.Context, m *wasm.ModuleInstance, f *function, stack []uint64)
 //@   requires f != nil && f.parent != nil && evOK()
 //@   ensures[bracketed] befores()-afters() == old(befores()-afters())
 //@   ensures[seen] old(f.parent.listener != nil) ==> befores() >= old(befores()) + 1
-//@   nosafety
+//@   nosafety keep-pre
 
 //@ func (ce *callEngine) callGoFuncWithStack(ctx context.Context, m *wasm.ModuleInstance, f *function)
 //@   requires f != nil && f.parent != nil && evOK()
 //@   ensures[bracketed] befores()-afters() == old(befores()-afters())
 //@   ensures[seen] old(f.parent.listener != nil) ==> befores() >= old(befores()) + 1
-//@   nosafety
+//@   nosafety keep-pre
 
 // Every call made through callFunction - guest or host callee - is seen by the callee's listener.
 //@ func (ce *callEngine) callFunction(ctx context.Context, m *wasm.ModuleInstance, f *function)
 //@   requires f != nil && f.parent != nil && evOK()
 //@   ensures[bracketed] befores()-afters() == old(befores()-afters())
 //@   ensures[seen] old(f.parent.listener != nil) ==> befores() >= old(befores()) + 1
-//@   nosafety
+//@   nosafety keep-pre
 
 // Unbounded recursion is stopped: the call stack never exceeds its ceiling.
 //@ func (ce *callEngine) pushFrame(frame *callFrame)
